@@ -32,6 +32,7 @@ const REGISTERED: &[&str] = &[
     "nan-not-propagated@gridshift-inv",
     "far-outside-counted@laea-inv-polar",
     "interior-not-finite@laea-fwd-polar",
+    "interior-not-finite@laea-inv-oblique-pole",
     "null-grid-outside-not-passed@deflection-fwd",
     "nan-not-propagated@cart-inv",
     "underflow-not-nan@stack-swap",
@@ -43,6 +44,9 @@ const REGISTERED: &[&str] = &[
 enum Cls {
     /// conservatively inside the documented domain: must be transformed and counted
     Interior,
+    /// a geographic pole that lies inside the documented domain (exactly, or within 1e-11 rad):
+    /// same clauses as `Interior`, separate failure keys (suffix `-pole`)
+    Pole,
     /// clearly beyond a declared domain limit: must be NaN-marked and not counted
     Far,
     /// outside grid coverage of an operator with `@null`: must be counted and stay NaN-free
@@ -196,6 +200,20 @@ const ELL: [&str; 5] = ["GRS80", "intl", "bessel", "WGS84", "GRS67"];
 /// normalised easting `|(x - x_0) / qs|` exceeds it, `qs = k_0 * a * Qn` (rectifying radius).
 const TMERC_STRIP_LIMIT: f64 = 2.623395162778;
 
+/// The cone constant of the Lambert conformal conic from the documented formula (Snyder 15-8 / 15-9a;
+/// `n = ln(m1/m2) / ln(t1/t2)`, `n = sin(lat_1)` for a tangent cone). Its sign is the hemisphere of the apex.
+fn lcc_cone_constant(lat_1: f64, lat_2: f64, ellps: &str) -> f64 {
+    let (_, a, rf) = vcore::refmath::PROJ_ELLIPSOIDS.iter().find(|e| e.0 == ellps).expect("ellipsoid in the reference table");
+    let e = El::from_rf(*a, *rf).e();
+    let (p1, p2) = (lat_1.to_radians(), lat_2.to_radians());
+    if (p1 - p2).abs() < 1.0e-10 {
+        return p1.sin();
+    }
+    let m = |p: f64| p.cos() / (1.0 - e * e * p.sin() * p.sin()).sqrt();
+    let t = |p: f64| (std::f64::consts::FRAC_PI_4 - p / 2.0).tan() / ((1.0 - e * p.sin()) / (1.0 + e * p.sin())).powf(e / 2.0);
+    (m(p1) / m(p2)).ln() / (t(p1) / t(p2)).ln()
+}
+
 /// a * Qn, the rectifying radius, from the published (a, 1/f) of the named ellipsoid
 /// (Karney 2010 eq. 29; written here independently of the library).
 fn rectifying_radius(ellps: &str) -> f64 {
@@ -311,15 +329,25 @@ fn make_cfg(fam: &str, v: &[u16; 4], vf: &[f64; 4]) -> OpCfg {
             }
         }
         "lcc" => {
-            let (d, lon_c, lat_c, x0, y0, k, north): (&str, f64, f64, f64, f64, f64, bool) = match pick(v[1], 7) {
-                0 => ("lcc lat_1=57 lon_0=12", 12.0, 57.0, 0.0, 0.0, 1.0, true),
-                1 => ("lcc lat_1=33 lat_2=45 lon_0=10", 10.0, 39.0, 0.0, 0.0, 1.0, true),
-                2 => ("lcc lat_1=39 lat_0=35 lon_0=10", 10.0, 35.0, 0.0, 0.0, 1.0, true),
-                3 => ("lcc lat_1=33 lat_2=45 lat_0=35 lon_0=10 x_0=12345 y_0=67890 k_0=0.99", 10.0, 35.0, 12345.0, 67890.0, 0.99, true),
-                4 => ("lcc lat_1=-35 lon_0=-60", -60.0, -35.0, 0.0, 0.0, 1.0, false),
-                5 => ("lcc lat_1=-20 lat_2=-50 lat_0=-30 lon_0=135 x_0=1000000 y_0=2000000", 135.0, -30.0, 1.0e6, 2.0e6, 1.0, false),
-                _ => ("lcc lat_1=49 lat_2=77 lat_0=63 lon_0=-92 x_0=6200000 y_0=3000000", -92.0, 63.0, 6.2e6, 3.0e6, 1.0, true),
+            // (definition, lon_0, lat_0, x_0, y_0, k_0, lat_1, lat_2)
+            let (d, lon_c, lat_c, x0, y0, k, l1, l2): (&str, f64, f64, f64, f64, f64, f64, f64) = match pick(v[1], 13) {
+                0 => ("lcc lat_1=57 lon_0=12", 12.0, 57.0, 0.0, 0.0, 1.0, 57.0, 57.0),
+                1 => ("lcc lat_1=33 lat_2=45 lon_0=10", 10.0, 39.0, 0.0, 0.0, 1.0, 33.0, 45.0),
+                2 => ("lcc lat_1=39 lat_0=35 lon_0=10", 10.0, 35.0, 0.0, 0.0, 1.0, 39.0, 39.0),
+                3 => ("lcc lat_1=33 lat_2=45 lat_0=35 lon_0=10 x_0=12345 y_0=67890 k_0=0.99", 10.0, 35.0, 12345.0, 67890.0, 0.99, 33.0, 45.0),
+                4 => ("lcc lat_1=-35 lon_0=-60", -60.0, -35.0, 0.0, 0.0, 1.0, -35.0, -35.0),
+                5 => ("lcc lat_1=-20 lat_2=-50 lat_0=-30 lon_0=135 x_0=1000000 y_0=2000000", 135.0, -30.0, 1.0e6, 2.0e6, 1.0, -20.0, -50.0),
+                6 => ("lcc lat_1=49 lat_2=77 lat_0=63 lon_0=-92 x_0=6200000 y_0=3000000", -92.0, 63.0, 6.2e6, 3.0e6, 1.0, 49.0, 77.0),
+                // standard parallels on opposite sides of the equator, in both orders, apex north and south
+                7 => ("lcc lat_1=20 lat_2=-23 lat_0=0 lon_0=25", 25.0, 0.0, 0.0, 0.0, 1.0, 20.0, -23.0),
+                8 => ("lcc lat_1=-10 lat_2=30 lon_0=-70", -70.0, 0.0, 0.0, 0.0, 1.0, -10.0, 30.0),
+                9 => ("lcc lat_1=35 lat_2=-15 lat_0=10 lon_0=100 x_0=500000 y_0=-250000", 100.0, 10.0, 5.0e5, -2.5e5, 1.0, 35.0, -15.0),
+                10 => ("lcc lat_1=-40 lat_2=12 lat_0=-10 lon_0=-150 k_0=0.9995", -150.0, -10.0, 0.0, 0.0, 0.9995, -40.0, 12.0),
+                11 => ("lcc lat_1=5 lat_2=-60 lat_0=-30 lon_0=60", 60.0, -30.0, 0.0, 0.0, 1.0, 5.0, -60.0),
+                _ => ("lcc lat_1=-2 lat_2=48 lat_0=25 lon_0=0 x_0=-1000000", 0.0, 25.0, -1.0e6, 0.0, 1.0, -2.0, 48.0),
             };
+            // the apex of the cone is in the hemisphere given by the sign of the cone constant n
+            let north = lcc_cone_constant(l1, l2, ell) > 0.0;
             tag = if north { "north" } else { "south" }.to_string();
             num = vec![lon_c, lat_c, x0, y0, k];
             format!("{d} ellps={ell}")
@@ -739,14 +767,27 @@ fn gen_proj(cfg: &OpCfg, fwd: bool, sel: u8, u: &[f64; 6]) -> (P4, Cls, bool) {
     let fam = cfg.fam.as_str();
     let (z, t) = (zsel(u[4]), tsel(u[5]));
     let rad = |lon: f64, lat: f64| (lon.to_radians(), lat.to_radians());
+    let pole_draw = split(u[3], 6).0 == 0;
+    let near_pole = |sign: f64| sign * (FRAC_PI_2 - [0.0, 0.0, 1.0e-11, 5.0e-11][split(split(u[3], 6).1, 4).0]);
     let interior = || -> (f64, f64) {
         match fam {
+            // one interior tuple in six sits exactly on a pole (or within 1e-11 rad of it)
+            "tmerc" | "utm" if pole_draw => ((lon_c + lerp(u[0], -60.0, 60.0)).to_radians(), near_pole(sgn(u[1]))),
+            "btmerc" | "butm" if pole_draw => ((lon_c + lerp(u[0], -3.0, 3.0)).to_radians(), near_pole(sgn(u[1]))),
             "tmerc" | "utm" => rad(lon_c + lerp(u[0], -60.0, 60.0), lerp(u[1], -89.0, 89.0)),
             "btmerc" | "butm" => rad(lon_c + lerp(u[0], -3.0, 3.0), lerp(u[1], -80.0, 80.0)),
             "merc" | "webmerc" => rad(lerp(u[0], -180.0, 180.0), lerp(u[1], -85.0, 85.0)),
+            // the pole at the apex of the cone is inside the domain (it maps to the apex)
+            "lcc" if pole_draw => ((lon_c + lerp(u[0], -170.0, 170.0)).to_radians(), near_pole(if cfg.tag == "north" { 1.0 } else { -1.0 })),
             "lcc" => {
                 let lat = if cfg.tag == "north" { lerp(u[1], -60.0, 89.0) } else { lerp(u[1], -89.0, 60.0) };
                 rad(lon_c + lerp(u[0], -170.0, 170.0), lat)
+            }
+            // the poles within 150° of the centre (the near pole always, the far one for |lat_0| <= 60°)
+            "laea" if pole_draw => {
+                let near = if lat_c >= 0.0 { 1.0 } else { -1.0 };
+                let s = if lat_c.abs() <= 60.0 && u[1] < 0.5 { -near } else { near };
+                (lerp(u[0], -PI, PI), near_pole(s))
             }
             "laea" => match cfg.tag.as_str() {
                 "polar" => {
@@ -759,9 +800,11 @@ fn gen_proj(cfg: &OpCfg, fwd: bool, sel: u8, u: &[f64; 6]) -> (P4, Cls, bool) {
         }
     };
     let geo = |p: (f64, f64)| p4(p.0, p.1, z, t);
+    let pole_fams = matches!(fam, "tmerc" | "utm" | "btmerc" | "butm" | "lcc" | "laea");
+    let icls = if pole_draw && pole_fams { Cls::Pole } else { Cls::Interior };
     if fwd {
         match sel {
-            0..=4 => (geo(interior()), Cls::Interior, false),
+            0..=4 => (geo(interior()), icls, false),
             5 => match fam {
                 // beyond the strip limit (normalised easting > 2.6234): low latitude, ~90° off the central meridian
                 // (the series is evaluated before the test and diverges near the singular point at lat 0,
@@ -834,7 +877,7 @@ fn gen_proj(cfg: &OpCfg, fwd: bool, sel: u8, u: &[f64; 6]) -> (P4, Cls, bool) {
             return (planar((x, y0 + lerp(u[1], -1.0e7, 1.0e7))), cls, false);
         }
         match sel {
-            0..=4 => (geo(interior()), Cls::Interior, true),
+            0..=4 => (geo(interior()), icls, true),
             5 => match fam {
                 // beyond the disc of radius 2 * Rq = 1.274e7 m
                 "laea" => {
@@ -1128,7 +1171,7 @@ fn choose(fails: Vec<Failure>) -> CaseResult {
 fn check_tuple(cfg: &OpCfg, fwd: bool, tr: &Traits, tup: &Tup, before: &Coor4D, after: &Coor4D, count: usize) -> Option<Failure> {
     let dir = dirname(fwd);
     let tagk = if matches!(cfg.fam.as_str(), "laea" | "geodesic") && !cfg.tag.is_empty() { format!("-{}", cfg.tag) } else { String::new() };
-    let id = format!("{}-{dir}{tagk}", cfg.fam);
+    let id = format!("{}-{dir}{tagk}{}", cfg.fam, if tup.cls == Cls::Pole { "-pole" } else { "" });
     let ctxt = || {
         format!(
             "definition '{}' ({dir}), class {:?}, NaN mask {:04b}\n input  {}\n output {}\n reported count {count} for this singleton",
@@ -1168,7 +1211,7 @@ fn check_tuple(cfg: &OpCfg, fwd: bool, tr: &Traits, tup: &Tup, before: &Coor4D, 
         return fail("null-grid-outside-not-passed", "the tuple lies outside grid coverage, `@null` is given, but it is not counted / is NaN-marked (documented: passed through, not counted as an error)");
     }
     // (3) interior => transformed and counted, finite
-    if tup.cls == Cls::Interior && nan_free_input {
+    if matches!(tup.cls, Cls::Interior | Cls::Pole) && nan_free_input {
         if count != 1 {
             return fail("interior-not-counted", "the tuple lies in the interior of the documented domain and is NaN-free, but is not counted");
         }
@@ -1274,7 +1317,7 @@ fn check(case: &Case, rec: &mut Rec) -> CaseResult {
         fails.push(Failure { key: format!("count-exceeds-len@{label}"), msg: format!("apply reports {count} successes for {n} tuples\n{}", desc()) });
     } else if fails.is_empty() && !tr.placeholder {
         let nan_free_out = batch.iter().filter(|c| !has_nan(c)).count();
-        let must = inputs.iter().filter(|(i, c)| case.tups[*i].cls == Cls::Interior && !has_nan(c)).count();
+        let must = inputs.iter().filter(|(i, c)| matches!(case.tups[*i].cls, Cls::Interior | Cls::Pole) && !has_nan(c)).count();
         let must_not = inputs.iter().filter(|(i, c)| case.tups[*i].cls == Cls::Far && !has_nan(c)).count();
         if tr.one_way_inverse {
             if count != 0 || !vec_bits_eq(&batch, &inputs.iter().map(|x| x.1).collect::<Vec<_>>()) {
@@ -1737,7 +1780,7 @@ const GRID_FAMILIES: [&str; 3] = ["gridshift", "deflection", "deformation"];
 
 fn main() {
     let mut run = Run::init("C10");
-    run.assume("domain classes: 'Interior' is the documented domain conservatively shrunk (tmerc/utm: |lon-lon_0|<=60°, |lat|<=89°; btmerc: 3°; merc: |lat|<=85°; lcc: up to 89° on the cone side and 60° beyond the equator; laea: within 150° of the centre; omerc/somerc: 3° around the centre; grids: inside the nominal bounds shrunk by 0.1 cell + 0.01°; cart inv: geocentric radius 6.34e6..2e7 m incl. the axis; geodesic: |lat|<=89°, 1 m..19000 km, inverse separation 0.001°..170°); 'Far' only where the code declares a limit (tmerc strip: normalised easting > 2.6234, taken at |lat|<=3° and 87..93° from the central meridian, the inverse limit is asserted directly from the source's constant: |x-x_0| <= 2.623395162778·k_0·a·Qn·(1-1e-9) must be counted and finite, >= ·(1+1e-9) NaN-marked and uncounted, on both sides, for x_0 in {0, 500000, -3e6, -20000} and every utm zone, Qn from the published a, 1/f; laea disc: > 1.5e7 m from the false origin; lcc: the pole opposite the apex within the operator's 1e-10 rad; grids: more than 0.8 cell beyond the border, the half-cell margin being coverage); everything else gets only count<=len, 'uncounted => NaN', untouched axes and NaN propagation");
+    run.assume("domain classes: 'Interior' is the documented domain conservatively shrunk (tmerc/utm: |lon-lon_0|<=60°, |lat|<=89°; btmerc: 3°; merc: |lat|<=85°; lcc: up to 89° on the apex side and 60° beyond the equator, plus the apex pole itself, the apex hemisphere being the sign of n = ln(m1/m2)/ln(t1/t2) computed in the harness; exact poles (and poles - 1e-11 rad) are also interior for tmerc/utm/btmerc/butm and for laea when within 150° of the centre; laea: within 150° of the centre; omerc/somerc: 3° around the centre; grids: inside the nominal bounds shrunk by 0.1 cell + 0.01°; cart inv: geocentric radius 6.34e6..2e7 m incl. the axis; geodesic: |lat|<=89°, 1 m..19000 km, inverse separation 0.001°..170°); 'Far' only where the code declares a limit (tmerc strip: normalised easting > 2.6234, taken at |lat|<=3° and 87..93° from the central meridian, the inverse limit is asserted directly from the source's constant: |x-x_0| <= 2.623395162778·k_0·a·Qn·(1-1e-9) must be counted and finite, >= ·(1+1e-9) NaN-marked and uncounted, on both sides, for x_0 in {0, 500000, -3e6, -20000} and every utm zone, Qn from the published a, 1/f; laea disc: > 1.5e7 m from the false origin; lcc: the pole opposite the apex within the operator's 1e-10 rad; grids: more than 0.8 cell beyond the border, the half-cell margin being coverage); everything else gets only count<=len, 'uncounted => NaN', untouched axes and NaN propagation");
     run.assume("inverse-direction interior tuples of plane projections are images of interior geographic points under the library's own forward (so they are in the operator's range whatever its formulas); if that forward pre-step fails the tuple is skipped here and judged by the forward cases");
     run.assume("counting a NaN-in/NaN-out tuple as a success is not flagged; a NaN-free tuple outside the Interior class that is counted although its result carries NaN is only tallied (counter nanfree_in_nan_out_but_counted)");
     run.assume("no infinities are generated (IEEE hypot(inf, NaN) = inf would make the NaN clause unsound); an epoch of -0.0 is not generated for `deformation` (it adds +0.0 to the fourth element, so -0.0 would come back as +0.0: pedantic, excluded by construction)");
@@ -1753,24 +1796,24 @@ fn main() {
     run.note("uncovered_operators", serde_json::json!(uncovered));
     run.note("catalogue_families", serde_json::json!(FAMILIES));
 
-    // 1. every NaN subset (16) x family x 6 variants x direction x 3 interior points
+    // 1. every NaN subset (16) x family x 6 variants x direction x 4 interior points
     {
         let nf = FAMILIES.len();
-        let total = nf * 6 * 2 * 3 * 16;
+        let total = nf * 6 * 2 * 4 * 16;
         run.enumerate(
             "nan-subsets",
-            "every family x 6 configurations x both directions x 3 interior points x all 16 NaN subsets of the four elements, singleton application; non-trivial = subset neither empty nor full",
+            "every family x 6 configurations x both directions x 4 interior points (for the projections with a pole in their domain two of them are the pole itself and the pole - 1e-11 rad) x all 16 NaN subsets of the four elements, singleton application; non-trivial = subset neither empty nor full",
             total,
             move |i| {
                 let fam = FAMILIES[i % nf];
                 let r = i / nf;
                 let var = r % 6;
                 let fwd = (r / 6) % 2 == 0;
-                let pt = (r / 12) % 3;
-                let mask = (r / 36) as u8;
+                let pt = (r / 12) % 4;
+                let mask = (r / 48) as u8;
                 let v = [(var * 10923 + 17) as u16, (var * 21845 + 5) as u16, (var * 13107 + 11) as u16, (var * 9362 + 3) as u16];
                 let vf = [var as f64 / 6.0 + 0.01, 0.37, 0.61, 0.13 * var as f64];
-                let u = [[0.31, 0.62, 0.45, 0.55, 0.27, 0.05], [0.83, 0.17, 0.71, 0.93, 0.52, 0.41], [0.5, 0.5, 0.02, 0.01, 0.9, 0.77]][pt];
+                let u = [[0.31, 0.62, 0.45, 0.55, 0.27, 0.05], [0.83, 0.17, 0.71, 0.93, 0.52, 0.41], [0.5, 0.5, 0.02, 0.01, 0.9, 0.77], [0.25, 0.75, 0.6, 0.1, 0.4, 0.3]][pt];
                 let mut c = build_case(fam, &v, &vf, fwd, &[(0, u, 0)]);
                 c.tups[0].mask = mask;
                 c
